@@ -245,3 +245,65 @@ def _rows_gen(rng):
 
 
 native(f"{OM}.get_hourly_loading_data", _rows_check, _rows_gen, None, bound="random load lists of 0/1/25/745/8760 entries and random fields of 1..40 boreholes")
+
+
+# ---- get_summary_object (C12) ---------------------------------------------------------------------------------
+from pyvc.values import EnumVal  # noqa: E402
+
+B_ = "ghedesigner.borehole_heat_exchangers"
+contract(f"{B_}:GHEDesignerBoreholeBase.compute_reynolds", dict(m_flow_pipe=Real, r_in=Real, fluid=ObjOf("fluid", rho=Real, mu=Real)), inline=True)
+contract(f"{OM}.get_timestep_str", dict(load_method=Const(EnumVal("TimestepType", "HYBRID", 2))), inline=True)
+contract(f"{B_}:SingleUTube.calc_effective_borehole_resistance", dict(self=ObjOf(f"{B_}:SingleUTube")), returns=Real, notes="abstract: pygfunction (A-DET)")
+contract("ghedesigner.gfunction:GFunction.g_function_interpolation", dict(self=ObjOf("ghedesigner.gfunction:GFunction"), b_over_h=Real),
+         returns=TupleOf(ListOf(Real), Real, Real, Real), notes="abstract here; C11", name="ghedesigner.gfunction:GFunction.g_function_interpolation#abstract").applies = lambda env: True
+
+SummaryRow = FixedList([OpaqueOf("str"), Real, Real, Real])
+
+
+def _summary_design():
+    fluid = ObjOf("fluid", rho=Real, mu=Real, k=Real, cp=Real, rhoCp=Real, dynamic_viscosity=FnOf(0), fluid=ObjOf("scp", fluid_name=OpaqueOf("str")))
+    pipe = ObjOf("pipe", r_out=Real, r_in=Real, s=Real, roughness=Real, k=Real, rhoCp=Real)
+    bhe = ObjOf(f"{B_}:SingleUTube", b=ObjOf("borehole", H=Real, r_b=Real, D=Real), pipe=pipe, fluid=fluid, m_flow_borehole=Real,
+                grout=ObjOf("grout", k=Real, rhoCp=Real), soil=ObjOf("soil", k=Real, rhoCp=Real, ugt=Real), h_f=Real)
+    gf = ObjOf("ghedesigner.gfunction:GFunction", g_lts=OpaqueOf("dict"), log_time=ListOf(Real), bore_locations=ListOf(Point, minlen=1))
+    sim = ObjOf("sim", start_month=Int, end_month=Int, max_EFT_allowable=Real, min_EFT_allowable=Real, max_height=Real, min_height=Real)
+    hl = ObjOf("hybrid", monthly_cl=ListOf(Real, minlen=1), monthly_hl=ListOf(Real), monthly_peak_hl=ListOf(Real), monthly_peak_hl_duration=ListOf(Real),
+               monthly_peak_cl=ListOf(Real), monthly_peak_cl_duration=ListOf(Real))
+    ghe = ObjOf("ghedesigner.ground_heat_exchangers:GHE", gFunction=gf, bhe=bhe, B_spacing=Real, fieldType=OpaqueOf("str"), fieldSpecifier=OpaqueOf("str"),
+                sim_params=sim, hybrid_load=hl, times=ListOf(Real, np=True), dTb=ListOf(Real), hp_eft=ListOf(Real, minlen=1))
+    return ObjOf("search", ghe=ghe, searchTracker=ListOf(SummaryRow))
+
+
+def _is_max(lst, v):
+    return And(exists(1, lambda j: And(0 <= j, j < lst.len, lst[j] == v)), forall(1, lambda j: Implies(And(0 <= j, j < lst.len), lst[j] <= v)))
+
+
+def _is_min(lst, v):
+    return And(exists(1, lambda j: And(0 <= j, j < lst.len, lst[j] == v)), forall(1, lambda j: Implies(And(0 <= j, j < lst.len), lst[j] >= v)))
+
+
+_abs = LoopSpec(abstract=True, shapes={"g_function_col_titles": ListOf(OpaqueOf("str")), "g_function_data": ListOf(ListOf(Real)), "gf_row": ListOf(Real),
+                                         "monthly_load_values": ListOf(ListOf(Real)), "out_array": ListOf(ListOf(Real)), "month_tb_vals": ListOf(Real),
+                                         "month_eft_vals": ListOf(Real)})
+
+contract(
+    f"{OM}.get_summary_object",
+    dict(self=ObjOf(OM), design=_summary_design(), time=Real, project_name=OpaqueOf("str"), notes=OpaqueOf("str"), author=OpaqueOf("str"),
+         model_name=OpaqueOf("str"), load_method=Const(EnumVal("TimestepType", "HYBRID", 2))),
+    requires=[("equal-lengths", lambda E: And(E.design.ghe.times.len == E.design.ghe.hp_eft.len, E.design.ghe.dTb.len == E.design.ghe.hp_eft.len)),
+              ("positive-height", lambda E: E.design.ghe.bhe.b.H > 0),
+              ("valid-fluid-and-pipe", lambda E: And(E.design.ghe.bhe.fluid.rho > 0, E.design.ghe.bhe.fluid.mu > 0, E.design.ghe.bhe.pipe.r_in > 0)),
+              ("times-non-negative", lambda E: forall(1, lambda j: Implies(And(0 <= j, j < E.design.ghe.times.len), E.design.ghe.times[j] >= 0)))],
+    loops={k: _abs for k in range(5)},
+    ensures=[
+        ("number-of-boreholes-is-the-field-size", lambda E: E.result["ghe_system"]["number_of_boreholes"] == E.design.ghe.gFunction.bore_locations.len),
+        ("total-drilling-is-count-times-height", lambda E: E.result["ghe_system"]["total_drilling"]["value"] == E.design.ghe.bhe.b.H * ToReal(E.design.ghe.gFunction.bore_locations.len)),
+        ("active-length-is-the-height", lambda E: E.result["ghe_system"]["active_borehole_length"]["value"] == E.design.ghe.bhe.b.H),
+        ("max-eft-is-the-maximum-of-the-stored-temperatures", lambda E: _is_max(E.design.ghe.hp_eft, E.result["simulation_results"]["max_hp_eft"]["value"])),
+        ("min-eft-is-the-minimum-of-the-stored-temperatures", lambda E: _is_min(E.design.ghe.hp_eft, E.result["simulation_results"]["min_hp_eft"]["value"])),
+        ("search-log-is-the-search-tracker", lambda E: And(E.result["design_selection_search_log"]["data"].len == E.design.searchTracker.len,
+                                                           forall(1, lambda j: Implies(And(0 <= j, j < E.design.searchTracker.len),
+                                                                                       And(*[E.result["design_selection_search_log"]["data"][j][c] == E.design.searchTracker[j][c] for c in (1, 2, 3)]))))),
+    ],
+    returns=OpaqueOf("dict"),
+)
